@@ -1,7 +1,8 @@
 """C07 (whole runs) — correspondence for the table-driven models of `Cli/PhaseTable.lean` and `Cli/Run.lean`.
 
 Suites
-  clirun     : a real run of `cnfgen … randkcnf | randkxor | kcolor …` in this process (stdout captured) with every call of
+  clirun     : a real run of `cnfgen|pbgen … randkcnf | randkxor | kcolor | tseitin | php | domset | kclique …` (graph arguments gnp /
+               gnm / gnd / bipartite samplers / files / `save`, `-T` chains) in this process (stdout captured) with every call of
                the `random` module RECORDED (request and answer, in order; the calls networkx makes for `gnp` included).  The
                recorded draws are handed to the Lean model of the whole run (`cliRun`), which must (a) ask for exactly these
                draws, in this order, with these arguments — a different request is a `stuck`/`DrawMismatch`, an unused or
@@ -50,7 +51,12 @@ TRUSTED_EXTRA = ["tools/extract_phases.py (ast translator: phase order of cli(),
                  "lean/CnfgenModel/Cli/HazardReview.lean (reviewed snapshot of the static hazards, one justification per entry)"]
 ASSUMPTIONS = ["random.seed(s) installs a state that is a function of s only (sigma)",
                "networkx.gnp_random_graph draws one random() per pair of combinations(range(n), 2) from the generator it is "
-               "given (checked on every gnp case: the recorded draws are replayed by the model)"]
+               "given (checked on every gnp case: the recorded draws are replayed by the model)",
+               "networkx.gnm_random_graph draws through seed.choice(list(G)) only, random_regular_graph through seed.shuffle(stubs) "
+               "only (networkx 3.6.1; checked on every gnm / gnd case: the shim records them, the model of Rand/NxDraws.lean must "
+               "consume exactly them)",
+               "a file named on the command line is read through the path token as written (the model has no cwd): checked by "
+               "running every file case in a fresh directory, and by the hazard review for os.getcwd / abspath"]
 
 UNIT = 1 << 53
 VOC_G, VOC_F, VOC_NX, VOC_SH = 0, 1, 2, 3       # vocabularies of `CliRun.RDraw`
